@@ -18,6 +18,7 @@ from gens import raw as graw
 from vlib import shrink_list
 
 REL = 1e-7
+ABS_FLOOR = 1e-15      # amounts below 1e-15 mol are below every convergence criterion of the solver
 DUMP_ALL = "DUMP\n -all\nEND\n"
 KW2TAB = {"SOLUTION_RAW": "Solution", "EXCHANGE_RAW": "Exchange", "SURFACE_RAW": "Surface", "GAS_PHASE_RAW": "GasPhase",
           "EQUILIBRIUM_PHASES_RAW": "PPassemblage", "SOLID_SOLUTIONS_RAW": "SSassemblage", "KINETICS_RAW": "Kinetics",
@@ -105,7 +106,7 @@ def cells_differ(a, b, skip=None, skipped=None):
                     for j in range(nc):
                         if heads[j][0] == "S" and unhx(heads[j][1:]) == base and ca[(k // nc) * nc + j][0] == "D":
                             scale = max(scale, abs(unhexd(ca[(k // nc) * nc + j][1:])))
-                if u == v or abs(u - v) <= REL * scale:
+                if u == v or abs(u - v) <= REL * scale + ABS_FLOOR:
                     continue
                 if skip and skip(h):
                     if skipped is not None:
@@ -421,6 +422,10 @@ MIN_CASES = {
         setup="SOLUTION 1\n temp 60\n Na 1\n Cl 1\nEND\nGAS_PHASE 1\n -fixed_volume\n -volume 1\n -temperature 40\n CH4(g) 0.005\n H2O(g) 0.03\n"
               "END\nUSE solution 1\nUSE gas_phase 1\nREACTION 5\n NaCl 1\n 0.0005\nSAVE solution 1\nSAVE gas_phase 1\nEND\n",
         followups=[("use", SEL_GAS + "USE solution 1\nUSE gas_phase 1\nREACTION 9\n HCl 1\n 0.001\nEND\n")]),
+    "exchange-on-empty-phase-two-cycles": dict(db="phreeqc.dat", adds="", kinds=["exch", "pp"], feat=["exch:phase-related"], react=True,
+        setup="SOLUTION 1\n K 2.4\n Cl 0.4\nEND\nEQUILIBRIUM_PHASES 1\n Calcite 0 Ca(OH)2 0.1\nEXCHANGE 1\n X Calcite equilibrium_phase 0.05\n"
+              " -equilibrate 1\nEND\nUSE solution 1\nUSE exchange 1\nUSE equilibrium_phases 1\nSAVE exchange 1\nSAVE equilibrium_phases 1\nEND\n",
+        followups=[("use", "USE solution 1\nUSE exchange 1\nUSE equilibrium_phases 1\nEND\n")]),
     "copy-constructor-pitzer": dict(db="pitzer.dat", adds="", kinds=[], feat=[], react=False,
         setup="SOLUTION 1\n Na 1\n Cl 1\nEND\n", followups=[("use", "USE solution 1\nEND\n")]),
 }
@@ -430,6 +435,8 @@ def signature(case, r, p):
     """known-finding signature of a problem, or None"""
     if p[0] == "read-error" and "initial partial pressure" in p[1] and "gas" in case["kinds"]:
         return "gascomp-p_read-nan"
+    if p[0] == "not-fixed" and "exch:phase-related" in case["feat"] and "EXCHANGE_RAW" in p[1] and "/totals/" in p[1]:
+        return "exchange-on-empty-phase-two-cycles"
     if p[0] == "icopy" and case["db"] == "pitzer.dat" and "copy constructor" in p[1]:
         return "copy-constructor-pitzer"
     return None
@@ -603,7 +610,7 @@ def shrink_case(ctx, exe, case, cls, status_of):
             return False
         return any(p[0] == cls for p in r["problems"])
     try:
-        small = shrink_list(lines, fails, max_iter=60)
+        small = shrink_list(lines, fails, max_iter=25)
     except Exception:
         small = lines
     return dict(case, setup="\n".join(small) + "\n")
